@@ -219,7 +219,7 @@ func init() {
 		r.del("WWW-Authenticate")
 		r.add("WWW-Authenticate", fmt.Sprintf("Digest realm=%q, nonce=%q", srvRealm, srvNonce))
 	})
-	reg("status-401-malformed", "status", "", true, func(s *server, req *base.Request, r *resp, d *delivery) {
+	reg("status-401-malformed", "status", "", false, func(s *server, req *base.Request, r *resp, d *delivery) {
 		r.status(401)
 		r.del("WWW-Authenticate")
 		r.add("WWW-Authenticate", "Digest realm")
@@ -239,7 +239,7 @@ func init() {
 
 	// ---- CSeq
 	reg("cseq-absent", "cseq", "", true, func(s *server, req *base.Request, r *resp, d *delivery) { r.del("CSeq") })
-	reg("cseq-wrong", "cseq", "", true, func(s *server, req *base.Request, r *resp, d *delivery) { r.set("CSeq", "1000") })
+	reg("cseq-wrong", "cseq", "", false, func(s *server, req *base.Request, r *resp, d *delivery) { r.set("CSeq", "1000") })
 	reg("cseq-garbage", "cseq", "", false, func(s *server, req *base.Request, r *resp, d *delivery) { r.set("CSeq", "abc") })
 
 	// ---- Session
@@ -452,7 +452,7 @@ func init() {
 	reg("unsolicited-announce", "inject", "", true, unsolicited("ANNOUNCE rtsp://"+srvAddr+"/stream RTSP/1.0\r\nCSeq: 78\r\nContent-Type: application/sdp\r\nContent-Length: 5\r\n\r\nv=0\r\n"))
 	reg("unsolicited-garbage-method", "inject", "", false, unsolicited("FOOBAR rtsp://"+srvAddr+"/stream RTSP/1.0\r\nCSeq: 79\r\n\r\n"))
 	reg("unsolicited-request-star", "inject", "", false, unsolicited("OPTIONS * RTSP/1.0\r\n\r\n"))
-	reg("garbage-bytes", "inject", "", true, unsolicited("\x00\x01\xfe\xffnot rtsp at all\r\n\r\n"))
+	reg("garbage-bytes", "inject", "", false, unsolicited("\x00\x01\xfe\xffnot rtsp at all\r\n\r\n"))
 	frameDev := func(ch int, declared int, sent int) fn {
 		return func(s *server, req *base.Request, r *resp, d *delivery) {
 			b := make([]byte, 4+sent)
@@ -465,14 +465,14 @@ func init() {
 	}
 	reg("frame-known-channel", "inject", "", true, frameDev(0, 16, 16))
 	reg("frame-known-rtcp-channel", "inject", "", false, frameDev(1, 16, 16))
-	reg("frame-unknown-channel", "inject", "", true, frameDev(200, 16, 16))
-	reg("frame-65535", "inject", "", true, frameDev(0, 65535, 65535))
+	reg("frame-unknown-channel", "inject", "", false, frameDev(200, 16, 16))
+	reg("frame-65535", "inject", "", false, frameDev(0, 65535, 65535))
 	reg("frame-65535-short", "inject", "", false, frameDev(0, 65535, 10))
 	reg("frame-empty", "inject", "", false, frameDev(0, 0, 0))
-	reg("close-instead", "close", "", true, func(s *server, req *base.Request, r *resp, d *delivery) { d.closeInstead = true })
+	reg("close-instead", "close", "", false, func(s *server, req *base.Request, r *resp, d *delivery) { d.closeInstead = true })
 	reg("close-after", "close", "", true, func(s *server, req *base.Request, r *resp, d *delivery) { d.closeAfter = true })
 	reg("silent-after", "close", "", true, func(s *server, req *base.Request, r *resp, d *delivery) { d.silentAfter = true })
-	reg("cl-larger-close", "close", "", true, func(s *server, req *base.Request, r *resp, d *delivery) {
+	reg("cl-larger-close", "close", "", false, func(s *server, req *base.Request, r *resp, d *delivery) {
 		r.set("Content-Length", fmt.Sprint(len(r.body)+100))
 		d.closeAfter = true
 	})
